@@ -133,7 +133,7 @@ func genPackage(r *hlib.Rand, idx int) string {
 			w("%s func %s.poke!(k: base.u32, v: base.u8) {\n\tthis.arr[args.k & 7] = args.v\n\tthis.big[args.k & 31] = args.v\n}\n\n", mv(), name)
 		}
 		if r.Chance(1, 2) {
-			w("%s func %s.fill!(d: slice base.u8) {\n\targs.d.bulk_memset!(byte_value: 0x5A)\n}\n\n", mv(), name)
+			w("%s func %s.fill!(d: slice base.u8, s: roslice base.u8) {\n\targs.d.copy_from_slice!(s: args.s)\n}\n\n", mv(), name)
 		}
 		if sub != "" && r.Chance(2, 3) {
 			w("%s func %s.subbump!() {\n\tthis.sub.hbump!()\n}\n\n", mv(), name)
